@@ -59,7 +59,12 @@ def gen(tier, rng):
                             if d >= 0:
                                 ref = "return (%s)((%s)a * %s);" % (D.name, D.name, D.lit(mag))
                                 # D11: the library scales in the (promoted) source rep and widens afterwards
-                                alts = [("D11/scaled-in-source-rep-then-widened", "return (%s)(a * %s);" % (D.name, PS.lit(mag) if mag <= PS.max else PS.lit(mag % (1 << PS.bits))))] if mag <= PS.max else []
+                                if mag <= PS.max:
+                                    alts = [("D11/scaled-in-source-rep-then-widened", "return (%s)(a * %s);" % (D.name, PS.lit(mag)))]
+                                else:
+                                    # the factor itself does not fit the source rep: for an unsigned source the library evaluates
+                                    # 1u << d with d >= width (undefined; LLVM folds the conversion to undef)
+                                    alts = [("D11/factor-does-not-fit-unsigned-source-rep", "%s u; return u;" % D.name)] if not S.signed else []
                             else:
                                 ref = "return (%s)(a / %s);" % (D.name, PS.lit(mag))
                                 alts = []
@@ -68,6 +73,7 @@ def gen(tier, rng):
                                 if form == "ctor" and tier == "quick" and (d not in (-8, 1, 20)):
                                     continue
                                 obs.append(kern.Ob("%s/int-int/r%d/%s@%d->%s@%d/%s" % (cfg, radix, S.short, es, D.short, ed, form), D.name, [(S.name, "a")], cnl, [ref], alts=alts, cfg=cfg,
+                                                   may_reject=(d >= 0 and mag > PS.max and S.signed),
                                                    meta=dict(anchor="include/cnl/_impl/scaled/convert_operator.h (integer -> integer); num_traits/scale.h", d=d)))
             # built-in integer <-> scaled_integer
             for S in reps:
